@@ -35,8 +35,14 @@ def parse(r, obs):
             (H["d_ok"] if op == "F.set_result" else H["d_err"])[d] = pos
             H["ok_ts"][d] = ts
             last_env[th] = d
+        elif op == "F.cancel" and str(obj).startswith("d") and th.startswith("e"):
+            # the environment cancels a delegate future behind the poll future's back (known finding G1 when it was pending)
+            if val == 0:
+                H.setdefault("d_envcancel", {})[int(obj[1:])] = pos
+            last_env[th] = None
         elif op == "ret" and obj == "env":
-            H["d_ret"][last_env[th]] = pos
+            if last_env.get(th) is not None:
+                H["d_ret"][last_env[th]] = pos
         elif op == "call" and obj == "notify":
             H["notifies"].append((pos, ts))
         elif op == "call" and obj == "cancel":
@@ -143,6 +149,12 @@ def monitor(r, obs):
         out.append(V("poll thread is dead", None, "poll:poller-dead"))
     H = parse(r, obs)
     ij, res, rret = H["ij"], H["res"], H["rret"]
+    # --- a delegate cancelled by someone else leaves its poll future pending for ever (C03's known finding G1) -------
+    for d, pos in sorted(H.get("d_envcancel", {}).items()):
+        o = obs.get("outs", {}).get(d)
+        if o is not None and o[0] == "pending":
+            out.append(V("poll future %d is still pending at the end although its delegate future was cancelled (by someone else) at %d: "
+                         "it ends neither cancelled nor failed" % (d, pos), pos, "lost:delegate-cancelled-behind-back:PollFuture:lockstep"))
     # --- single poller ---------------------------------------------------------------------------
     for (pos, th, op) in H["foreign"]:
         out.append(V("%s on thread %s" % (op, th), pos, "poll:foreign-thread"))
